@@ -83,7 +83,8 @@ class Cond:
                             args[p] = not args[p]
                         elif isinstance(args[p], int):
                             args[p] += 1
-            if all(eval(e, {}, dict(args)) for e in self.pre):  # noqa: S307
+            from vf import rt as _rt
+            if all(eval(e, {'_rt': _rt}, dict(args)) for e in self.pre):  # noqa: S307
                 return args
         raise RuntimeError('could not sample inputs for ' + self.name)
 
